@@ -6,60 +6,48 @@ NOTE = ("Trusted base: the Go toolchain, the VerifDump/verifPoint hooks (read-on
         "and the reference model written in /verif/harness/mon from the property statement. Verdict covers only the executions produced.")
 
 P = {
- "C02": dict(tech="runtime monitor: differential against an independent reference renderer written from the statement, over exhaustive flag products and random trees",
-             text="Exploration: 10,240 exhaustive two-level flag/kind products plus 30k / 3M random trees with per-node presentation options, Unicode/blank-run/empty/number leaves and valid/invalid Conditions; String() and fmt %s compared byte-for-byte with the reference rendering.", ref="2 C02"),
- "C03": dict(tech="runtime monitor: list model with capacity, checked after every op of exhaustive short and random sawtooth histories; raw slice length read through VerifDump",
-             text="Exploration: all histories of length <=3 / <=4 over 13 growth/shrink symbols for k in 1..3 plus 20k / 1M random sawtooth histories (k in 1..6, and no/zero/negative capacity argument); "
-                  "Len<=k, Cap/Avail/IsFull arithmetic, raw length and kept-earliest content compared with the model after every op.", ref="2 C03"),
- "C04": dict(tech="runtime monitor: round-trip oracle against the tree description (reference Unmarshal shape, node-by-node walk of the reconstruction, second Unmarshal, IsEqual)",
-             text="Exploration: 25k / 2M random trees of all kinds with empty stacks, chains, label-like strings, nil leaves and Conditions holding primitives, Stacks or Conditions; four assertions per tree and per Marshal calling convention.", ref="2 C04"),
- "C05": dict(tech="runtime monitor: metamorphic oracle - independently rebuilt copies must compare equal, every single-point mutant must compare unequal, in both directions",
-             text="Exploration: 6k / 400k random tree descriptions with composite leaves (pointers of depth 1-3, slices, arrays, maps, structs); each instantiated twice and once per single-point mutation (about 50k / 3M mutants), four directed IsEqual calls per mutant, every call under recover.", ref="2 C05"),
- "C06": dict(tech="runtime monitor: Condition state machine (acceptance rules, validity rule, rendering grammar) compared after every setter call of exhaustive and random histories",
-             text="Exploration: all setter histories of length <=3 / <=5 over a 10-symbol alphabet from three starts plus 40k / 2M random histories over accepted and rejected arguments; Keyword/Operator/Expression/Err/Valid/String compared with the model after every call.", ref="2 C06"),
- "C07": dict(tech="runtime monitor: differential against a reference descent written over Index/Convert*/Expression, all short paths per random tree",
-             text="Exploration: 2.5k / 200k random trees (nil slots, Conditions, aliases, per-stack index options); per tree all paths of length 0..3 over [-1,5] and 600 sampled deeper ones (about 1.9M paths in quick); "
-                  "value identity and success flag compared with stepwise descent.", ref="2 C07"),
- "C08": dict(tech="runtime monitor: exhaustive hostile-index and awkward-value sweeps over reflection-enumerated methods, list-model verdicts, recursive VerifDump diff and a 17-step observer battery",
-             text="Exploration, exhaustive over the stated finite catalogue: every int-taking Stack method x {MinInt..MaxInt boundary set} x lengths 0..4 x index options x capacity (15k calls), every any-taking Stack/Condition method x 55 awkward values, each value in four element roles; "
-                  "no panic, failure+unchanged snapshot for non-addressing indices, configuration slot intact and all observers still usable afterwards.", ref="2 C08"),
- "C09": dict(tech="runtime monitor: reflection-enumerated methods invoked on read-only instances, recursive VerifDump before/after diff, writable-twin measurement",
-             text="Exploration: every exported method of *Stack/*Condition x argument variants x 12 / 48 richly configured random instances (about 20k calls in quick) plus 4k / 200k random call sequences; "
-                  "nothing but the documented exceptions may differ in the raw record, Free must refuse, clearing the flag restores mutability.", ref="2 C09"),
- "C10": dict(tech="runtime monitor: deterministic interleaving explorer over the lock-point hook (cooperative scheduler, snapshot oracle for 'writes only under the lock'), porcupine linearizability checking of recorded histories, free-running stress under the Go race detector with address-classified reports",
-             text="Exploration: all interleavings (at lock-acquisition granularity) of all 2-worker x 1-op programs over 13 mutators x length 0..3 x LIFO/FIFO x 3 capacity modes, up to 200/400 interleavings of 1.5k / 60k sampled 2-3-worker programs, and 1.5k / 40k free-running 3-8-goroutine histories; "
-                  "every history checked by porcupine against the sequential list model; race reports classified by address class and reading function. The slice-header race of the unlocked prologue is a recorded known finding.", ref="2 C10",
-             note="Trusted base: Go toolchain and race detector, porcupine v1.3.0, the verifPoint hook positions (immediately before Lock, after Lock, after Unlock), VerifDump, the cooperative scheduler and the sequential list model in the harness. Schedules are explored at lock-acquisition granularity only."),
- "C11": dict(tech="runtime monitor under the Go race detector: before/after VerifDump diff and answer stability for every query; parallel readers with isolated-answer oracle; race-log parsing",
-             text="Exploration: 1.5k / 100k random trees with every judged query (reflection-enumerated, name-classified) issued twice around an answer-clobbering step, and 60 / 2k trees queried by 8-16 goroutines under -race; "
-                  "any race report, answer deviation or snapshot difference is a violation.", ref="2 C11",
-             note="Trusted base: Go toolchain and race detector (no false positives on pure Go, misses races that do not occur in the run), VerifDump, the name-based classification of methods into mutators/queries (an unclassified method makes the run inconclusive)."),
- "C12": dict(tech="runtime monitor: differential between an all-native tree and the same description with random alias forms, across String/Unmarshal/IsEqual/Traverse/IsNesting/Len/no-nesting/Transfer/Defrag/Convert*",
-             text="Exploration: 12k / 600k description pairs; every path of length <=3 traversed on both twins (3.1M pairs in quick), every alias form found probed against no-nesting stacks and Conditions, Convert* checked for identity on convertible and (zero,false) on 18 non-convertible values.", ref="2 C12"),
- "C13": dict(tech="runtime monitor: list model with the no-nesting bit over random push-batch/option-switch histories; Condition expression state machine",
-             text="Exploration: 20k / 1M random histories of mixed push batches (native, alias, pointer-to-alias Stacks, Conditions, primitives, nil) interleaved with option switches, on all kinds and on Conditions; "
-                  "content identity, CanNest and IsNesting checked after every step.", ref="2 C13"),
- "C14": dict(tech="runtime monitor: recording closures with predicate-defined verdicts; call-log, content and Err identity oracle for push policies; closure-result vs never-configured-twin oracle for the other closures",
-             text="Exploration: 14k / 700k push histories under random accept/reject predicates with and without capacity, and 6k / 300k install/remove sequences of validity, presentation, equality, marshal, unmarshal and evaluator closures on Stacks of every kind and on Conditions.", ref="2 C14"),
- "C15": dict(tech="runtime monitor: exhaustive product of source/destination shapes with recursive VerifDump before/after diff",
-             text="Exploration, exhaustive over the stated finite product (29k cases: lengths 0..6 x 0..6, capacity none/1..8, LIFO/FIFO, nil elements, 11 destination forms); "
-                  "success implies dst0++src, capacity shortage and inert destinations imply false and an unchanged destination, the source never changes.", ref="2 C15"),
- "C16": dict(tech="runtime monitor: grammar-based hostile []any generator plus mutated Unmarshal outputs, four Marshal calling modes under recover, post-call observer battery and label/growth rules",
-             text="Exploration: 60k / 5M generated inputs (malformed CONDITION rows, empty and chained envelopes, typed nils, non-operators, ready-made and zero instances, mis-cased and near-miss labels), each marshalled into zero and live receivers both ways.", ref="2 C16"),
- "C17": dict(tech="runtime monitor: reflection-enumerated methods and go/parser-cross-checked package functions invoked on zero/freed receivers, inertness oracle",
-             text="Exploration: every exported method of Stack/Condition/Auxiliary x argument variants x {zero, freed, Init-only} receivers (1.3k calls), every exported package function x awkward arguments, Free/Reset lifecycle cases and random call sequences on dead receivers; "
-                  "a function missing from the table or a method unreachable by reflection makes the run inconclusive.", ref="2 C17"),
- "C18": dict(tech="runtime monitor: bit-set/settings model compared with the raw option bits (VerifDump), getters and reference rendering after every call; exhaustive short sequences",
-             text="Exploration: all {set,clear,toggle} x option sequences of length <=3 / <=4 from several start states (Stacks: 8 options, Conditions: 4 setters) plus 10k / 500k random 30-call sequences mixing every string-valued setting, log levels, auxiliary map and the FIFO latch.", ref="2 C18"),
- "C19": dict(tech="runtime monitor: exhaustive nil/non-nil patterns against the filter-non-nil oracle, result-shape classifier with per-pattern pinned known outcomes",
-             text="Exploration: all patterns of length <=10 / <=12 x 3 scan limits x 4 index-option sets, random long patterns and random nested trees; every wrong result is classified by shape. "
-                  "The truncation defect (finding defrag:truncation) is recorded, everything else is a violation.", ref="2 C19"),
  "C01": dict(tech="runtime monitor: sequential list model checked after every operation of exhaustive short and random long histories",
-             text="Exploration: every mutator history of length <=3 (quick) / <=4 (thorough) over a 14-symbol alphabet plus 20k / 2M random 40-op histories, "
-                  "each on a random configuration; after every single op all content observers and return values are compared with an executable list model. "
-                  "Held on the executions produced, not a proof.", ref="2 C01"),
+   text="Exploration: every mutator history of length <=3 (quick) / <=4 (thorough) over a 14-symbol alphabet on start lengths 0..3 plus 200k / 10M random 40-op histories, each on a random kind x LIFO/FIFO x capacity x index-option configuration; after every single op all content observers and return values are compared with an executable list model. Held on the executions produced, not a proof.", ref="2 C01"),
+ "C02": dict(tech="runtime monitor: differential against an independent reference renderer written from the statement, over exhaustive flag products and random trees",
+   text="Exploration: 10,240 exhaustive two-level flag/kind products plus 300k / 10M random trees with per-node presentation options, Unicode (incl. interior exotic white space), blank-run, empty, numeric and stringer leaves and valid/invalid Conditions; String() and fmt %s compared byte-for-byte with the reference rendering.", ref="2 C02"),
+ "C03": dict(tech="runtime monitor: list model with capacity, checked after every op of exhaustive short and random sawtooth histories; raw slice length read through VerifDump",
+   text="Exploration: all histories of length <=3 / <=4 over 13 growth/shrink symbols for k in 1..3 plus 200k / 5M random sawtooth histories (k in 1..6, no/zero/negative capacity argument, a quarter under a permissive push policy); Len<=k, Cap/Avail/IsFull arithmetic, raw length and kept-earliest content compared with the model after every op.", ref="2 C03"),
+ "C04": dict(tech="runtime monitor: round-trip oracle against the tree description (reference Unmarshal shape, node-by-node walk of the reconstruction, second Unmarshal, IsEqual)",
+   text="Exploration: 250k / 10M random trees of all kinds with empty stacks, chains, label-like strings, nil leaves and Conditions holding primitives, Stacks or Conditions; four assertions per tree and per Marshal calling convention.", ref="2 C04"),
+ "C05": dict(tech="runtime monitor: metamorphic oracle - independently rebuilt copies must compare equal, every single-point mutant must compare unequal, in both directions",
+   text="Exploration: 20k / 1M random tree descriptions with composite leaves (pointers of depth 1-3, slices incl. nil pointer elements, arrays, maps, structs); each instantiated twice and once per single-point mutation incl. case-only changes (about 150k / 7M mutants), four directed IsEqual calls per mutant, every call under recover.", ref="2 C05"),
+ "C06": dict(tech="runtime monitor: Condition state machine (acceptance rules, validity rule, rendering grammar) compared after every setter call of exhaustive and random histories",
+   text="Exploration: all setter histories of length <=3 / <=5 over a 10-symbol alphabet from three starts plus 400k / 10M random histories over accepted and rejected arguments; Keyword/Operator/Expression/Err/Valid/String compared with the model after every call.", ref="2 C06"),
+ "C07": dict(tech="runtime monitor: differential against a reference descent written over Index/Convert*/Expression, all short paths per random tree",
+   text="Exploration: 12k / 600k random trees (nil slots, Conditions, aliases, per-stack index options); per tree all paths of length 0..3 over [-1,5] and 600 sampled deeper ones (about 9M paths in quick); exact value (type and identity) and success flag compared with stepwise descent.", ref="2 C07"),
+ "C08": dict(tech="runtime monitor: exhaustive hostile-index and awkward-value sweeps over reflection-enumerated methods, list-model verdicts, recursive VerifDump diff and a 17-step observer battery",
+   text="Exploration, exhaustive over the stated finite catalogue: every int-taking Stack method x {MinInt..MaxInt boundary set} x lengths 0..4 / 0..7 x index options x capacity, every any-taking Stack/Condition method x 55 awkward values, each value in four element roles; no panic, failure+unchanged snapshot for non-addressing indices, configuration slot intact and all observers still usable afterwards.", ref="2 C08"),
+ "C09": dict(tech="runtime monitor: reflection-enumerated methods invoked on read-only instances (and on other instances with the read-only one as argument or nested element), recursive VerifDump before/after diff, writable-twin measurement",
+   text="Exploration: every exported method of *Stack/*Condition x argument variants x 24 / 96 richly configured random instances, 40k / 200k random call sequences, and 40k / 200k foreign-role cases (read-only instance as argument of, or nested inside, a writable receiver incl. structure-rewriting calls); nothing but the documented exceptions may differ in the raw record, Free must refuse, clearing the flag restores mutability.", ref="2 C09"),
+ "C10": dict(tech="runtime monitor: deterministic interleaving explorer over the lock-point hook (cooperative scheduler, snapshot oracle for 'writes only under the lock'), porcupine linearizability checking of recorded histories, free-running stress under the Go race detector with address-classified reports",
+   text="Exploration: all interleavings (at lock-acquisition granularity) of all 2-worker x 1-op programs over 13 mutators x length 0..3 x LIFO/FIFO x 3 capacity modes, up to 200/400 interleavings of 1.5k / 60k sampled 2-3-worker programs, and 1.5k / 40k free-running 3-8-goroutine histories; every history checked by porcupine against the sequential list model; race reports classified by address class and reading function. The slice-header race of the unlocked prologue is a recorded known finding.", ref="2 C10",
+   note="Trusted base: Go toolchain and race detector, porcupine v1.3.0, the verifPoint hook positions (immediately before Lock, after Lock, after Unlock), VerifDump, the cooperative scheduler and the sequential list model in the harness. Schedules are explored at lock-acquisition granularity only."),
+ "C11": dict(tech="runtime monitor under the Go race detector: before/after VerifDump diff, answer stability and lock-freedom for every query; parallel readers with isolated-answer oracle; race-log parsing",
+   text="Exploration: 3k / 100k random trees with every judged query (reflection-enumerated, name-classified) issued twice around an answer-clobbering step with the lock-point hook watching for lock acquisitions, and 120 / 2k trees queried by 8-16 goroutines under -race; any race report, lock acquisition, answer deviation or snapshot difference is a violation.", ref="2 C11",
+   note="Trusted base: Go toolchain and race detector (no false positives on pure Go, misses races that do not occur in the run), VerifDump, verifPoint, the name-based classification of methods into mutators/queries (an unclassified method makes the run inconclusive)."),
+ "C12": dict(tech="runtime monitor: differential between an all-native tree and the same description with random alias forms, across String/Unmarshal/IsEqual/Traverse/IsNesting/Len/no-nesting/Transfer/Defrag/Convert*",
+   text="Exploration: 60k / 3M description pairs with six alias forms (value/pointer; no String, delegating String, divergent String); every path of length <=3 traversed on both twins, every alias form found probed against no-nesting stacks and Conditions, Convert* checked for identity on convertible and (zero,false) on 18 non-convertible values.", ref="2 C12"),
+ "C13": dict(tech="runtime monitor: list model with the no-nesting bit over random push-batch/option-switch histories; Condition expression state machine",
+   text="Exploration: 200k / 10M random histories of mixed push batches (native, alias, pointer-to-alias Stacks, Conditions, primitives, nil) interleaved with option switches, on all kinds and on Conditions; content identity, CanNest and IsNesting checked after every step.", ref="2 C13"),
+ "C14": dict(tech="runtime monitor: recording closures with predicate-defined verdicts; call-log, content and Err identity oracle for push policies; closure-result vs never-configured-twin oracle for the other closures",
+   text="Exploration: 140k / 7M push histories under random accept/reject predicates with and without capacity, and 60k / 3M install/remove sequences of validity, presentation, equality (incl. self comparison), marshal, unmarshal and evaluator closures on Stacks of every kind and on Conditions.", ref="2 C14"),
+ "C15": dict(tech="runtime monitor: exhaustive product of source/destination shapes with recursive VerifDump before/after diff",
+   text="Exploration, exhaustive over the stated finite product (29k cases: lengths 0..6 x 0..6, capacity none/1..8, LIFO/FIFO, nil elements, 11 destination forms); success implies dst0++src, capacity shortage and inert destinations imply false and an unchanged destination, the source never changes.", ref="2 C15"),
+ "C16": dict(tech="runtime monitor: grammar-based hostile []any generator plus mutated Unmarshal outputs, four Marshal calling modes under recover, post-call observer battery and label/growth rules",
+   text="Exploration: 400k / 20M generated inputs (malformed CONDITION rows, empty and chained envelopes, typed nils, non-operators, ready-made and zero instances, mis-cased and near-miss labels), each marshalled into zero and live receivers both ways.", ref="2 C16"),
+ "C17": dict(tech="runtime monitor: reflection-enumerated methods and go/parser-cross-checked package functions invoked on zero/freed receivers, inertness oracle",
+   text="Exploration: every exported method of Stack/Condition/Auxiliary x argument variants x {zero, freed, Init-only} receivers, every exported package function x awkward arguments, 20k / 200k Free/Reset lifecycle cases (complete, partial, Init-only, invalid, read-only instances) and 30k / 2M random call sequences on dead receivers; a function missing from the table or a method unreachable by reflection makes the run inconclusive.", ref="2 C17"),
+ "C18": dict(tech="runtime monitor: bit-set/settings model compared with the raw option bits (VerifDump), getters and reference rendering after every call; exhaustive short sequences",
+   text="Exploration: all {set,clear,toggle} x option sequences of length <=3 / <=4 from several start states (Stacks: 8 options, Conditions: 4 setters) plus 100k / 5M random 30-call sequences mixing every string-valued setting, log levels, auxiliary map and the FIFO latch.", ref="2 C18"),
+ "C19": dict(tech="runtime monitor: exhaustive nil/non-nil patterns against the filter-non-nil oracle, result-shape classifier with per-pattern pinned known outcomes",
+   text="Exploration: all patterns of length <=10 / <=12 x 3 scan limits x 4 index-option sets, 30k / 2M random long patterns (incl. long nil runs under explicit limits above 50) and 30k / 2M random nested trees; every wrong result is classified by shape. The truncation defect (finding defrag:truncation) is recorded, everything else is a violation.", ref="2 C19"),
  "C20": dict(tech="runtime monitor: before/after live descriptions with node identity; leaf-sequence, unwrapped-normal-form, depth and protected-node oracles; lock-point hook detecting re-entrant acquisition and leaked locks",
-             text="Exploration: all single-child chains of length <=4 / <=5 over kind x parenthetical with three endings (33k / 333k) plus 30k / 3M random chain-biased trees with Conditions, aliases, empty stacks and mutex-enabled nodes; Reveal applied twice, five oracles per application.", ref="2 C20"),
+   text="Exploration: all single-child chains of length <=4 / <=5 over kind x parenthetical with three endings (33k / 333k) plus 200k / 10M random chain-biased trees with Conditions, aliases, empty stacks and mutex-enabled nodes; Reveal applied twice, five oracles per application.", ref="2 C20"),
 }
 
 NOT_BUILT = "check not built yet in this session (planned; see DESIGN.md section 2)"
